@@ -30,6 +30,8 @@ use std::panic::{catch_unwind, AssertUnwindSafe};
 mod gc;
 #[path = "../c15_ivs.rs"]
 mod ivs;
+#[path = "../c15_sets.rs"]
+mod sets;
 
 fn werr(e: &WriteError) -> &'static str {
     match e {
@@ -1313,6 +1315,8 @@ fn run(input: &str) -> String {
         "cmsrd" => gc::run_cmsrd(&p),
         "cmapv" => gc::run_cmapv(&p),
         "cmaprd" => gc::run_cmaprd(&p),
+        "set" => sets::run_set(&p),
+        "setw" => sets::run_setw(&p),
         "ivd" => ivs::run_ivd(&p),
         "vrl" => ivs::run_vrl(&p),
         "ivs" => ivs::run_ivs(&p),
@@ -1770,6 +1774,10 @@ fn gen(rng: &mut Rng) -> String {
     // composite glyphs and cmap: 24% of the cases
     if rng.chance(1, 25) {
         return gen_arr(rng);
+    }
+    // cvt, charsets, FDSelect, custom encodings: 8% of the cases
+    if rng.chance(2, 25) {
+        return sets::gen_sets(rng, &mut mutate);
     }
     // item variation stores: 8% of the cases
     if rng.chance(2, 25) {
